@@ -20,6 +20,7 @@ var verifFamilies = [][]string{
 	{"/a/{x}/{y}", "/a/{x}", "/b"},
 	{"/{x}/b", "/a/c"},
 	{"/", "/a/", "/a/{x}/c"},
+	{"/b", "/{x}"}, // a literal and a templated sibling at the top: the method may be declared on the templated one only
 }
 
 func verifCtx() context.Context { return context.Background() }
@@ -211,7 +212,7 @@ func verifC09(maxLen int) {
 	verifReach("end")
 }
 
-//verif:harness id=C09 tier=quick witness=end bounds="gorilla/mux-based router (gorilla/mux interpreted on concrete text): 5 template families x POST on one path x servers in {none, /v1, https://h.example/v1, https://h.example/{b}, the same with enum v1,v2} x methods GET/POST/PUT x request base in {none,/v1,/v2,/v3} x origin in {https://h.example, other host, http} (absolute servers) x every path '/'+ up to 2 bytes over {/,a,b,c}"
+//verif:harness id=C09 tier=quick witness=end bounds="gorilla/mux-based router (gorilla/mux interpreted on concrete text): 6 template families x POST on one path x servers in {none, /v1, https://h.example/v1, https://h.example/{b}, the same with enum v1,v2} x methods GET/POST/PUT x request base in {none,/v1,/v2,/v3} x origin in {https://h.example, other host, http} (absolute servers) x every path '/'+ up to 2 bytes over {/,a,b,c}"
 func verifH_C09_gorilla() { verifC09(3) }
 
 //verif:harness id=C09 tier=thorough witness=end bounds="as quick with request paths of up to 4 bytes"
